@@ -448,3 +448,58 @@ def r8(rr, repo):
 def r9(rr, repo):
     from .c09 import r6 as c09r6
     c09r6(rr, repo)
+
+
+@rule('C02.R10', "a subscription spec means what the documentation says: 'src>dst' maps src to dst, a bare 'src' maps it to itself, and an omitted side ('>dst', 'src>', '>') stands for the default topic 'main' on THAT side - "
+                 'the pairs parse_topics builds are what the receiver renames by')
+def r10(rr, repo):
+    FIL = 'openfilter/filter_runtime/filter.py'
+    mod, pt = repo.find(f'{FIL}::Filter.parse_topics')
+    params = q.func_params(pt)
+    dflt = 'default_topic' if 'default_topic' in params else None
+    if dflt is None:
+        raise Unresolved(f'{FIL}: parse_topics has no default_topic parameter')
+    d = [a for a, dv in zip(pt.args.args[len(pt.args.args) - len(pt.args.defaults):], pt.args.defaults) if a.arg == dflt]
+    rr.ob("the default topic is 'main'", bool(d) and q.const_str(pt.args.defaults[[a.arg for a in pt.args.args[len(pt.args.args) - len(pt.args.defaults):]].index(dflt)]) and
+          pt.args.defaults[[a.arg for a in pt.args.args[len(pt.args.args) - len(pt.args.defaults):]].index(dflt)].value == 'main', mod, pt, key='default-main')
+    # the pair-building expression: the comprehension (or helper) under `if mapping:` that is assigned to the topics list
+    builds = [n for n in walk_scope(pt) if isinstance(n, ast.Assign) and isinstance(n.value, ast.ListComp) and any(pol and U(t) == 'mapping' for t, pol in q.guards_of(n, stop=pt))]
+    if len(builds) != 1:
+        raise Unresolved(f'{FIL}: parse_topics: cannot identify where the (source, destination) pairs are built ({len(builds)} candidates)')
+    comp = builds[0].value
+    elt = comp.elt
+    svar = U(comp.generators[0].target)
+    verdict, why = None, U(elt)[:120]
+    # idiom 1: tuple([t.strip() or default for t in s.strip().split('>')] * 2)[:2]
+    if isinstance(elt, ast.Subscript) and isinstance(elt.slice, ast.Slice) and U(elt.slice.upper) == '2' and elt.slice.lower is None and isinstance(elt.value, ast.Call) and U(elt.value.func) == 'tuple' and elt.value.args and \
+            isinstance(elt.value.args[0], ast.BinOp) and isinstance(elt.value.args[0].op, ast.Mult) and U(elt.value.args[0].right) == '2' and isinstance(elt.value.args[0].left, ast.ListComp):
+        inner = elt.value.args[0].left
+        piece = inner.elt
+        it = U(inner.generators[0].iter)
+        ok_iter = it in (f"{svar}.strip().split('>')", f"{svar}.split('>')")
+        ok_piece = isinstance(piece, ast.BoolOp) and isinstance(piece.op, ast.Or) and len(piece.values) == 2 and U(piece.values[0]) == f'{U(inner.generators[0].target)}.strip()' and U(piece.values[1]) == dflt
+        verdict = ok_iter and ok_piece
+        why = f"pieces of split('>'), each `piece.strip() or {dflt}`, doubled and cut to two" if verdict else why
+    # idiom 2: a helper / inline partition: src, _, dst = s.partition('>') ... (src.strip() or default, dst.strip() or <X>)
+    elif isinstance(elt, ast.Call) and isinstance(elt.func, ast.Name):
+        helper = [f for f in ast.walk(pt) if isinstance(f, ast.FunctionDef) and f.name == elt.func.id]
+        if helper:
+            rets = [r for r in ast.walk(helper[0]) if isinstance(r, ast.Return) and isinstance(r.value, ast.Tuple) and len(r.value.elts) == 2]
+            parts = [n for n in ast.walk(helper[0]) if isinstance(n, ast.Assign) and isinstance(n.value, ast.Call) and isinstance(n.value.func, ast.Attribute) and n.value.func.attr == 'partition' and n.value.args and q.const_str(n.value.args[0]) and n.value.args[0].value == '>']
+            if rets and parts and isinstance(parts[0].targets[0], ast.Tuple) and len(parts[0].targets[0].elts) == 3:
+                src_n, _, dst_n = [U(e) for e in parts[0].targets[0].elts]
+                dst_e = rets[0].value.elts[1]
+                if isinstance(dst_e, ast.BoolOp) and isinstance(dst_e.op, ast.Or) and len(dst_e.values) == 2 and U(dst_e.values[0]) == f'{dst_n}.strip()':
+                    fb = U(dst_e.values[1])
+                    if fb == dflt:
+                        # 'src' alone (no '>') must still map to itself: partition gives dst '' for it, so a distinction on the separator is needed
+                        verdict, why = None, "partition form: an empty destination falls back to the default topic, but a bare 'src' (no '>') must map to itself - not decided by this idiom table"
+                    else:
+                        verdict, why = False, f"an omitted destination ('src>') falls back to {fb} instead of the default topic: the frame is delivered under another name than the subscription documents"
+    if verdict is None:
+        rr.unresolved('parse_topics builds the (source, destination) pairs in a way the idiom table does not know', mod, builds[0], witness=why, key='mapping-pairs')
+    else:
+        rr.ob("each 'src>dst' piece becomes (src or 'main', dst or 'main'), a piece without '>' becomes (src, src)", verdict, mod, builds[0], witness=why, key='mapping-pairs')
+    # uniqueness test on both sides (a destination that two sources map to would merge frames)
+    uniq = [n for n in walk_scope(pt) if isinstance(n, ast.If) and 'len(' in U(n.test) and 'set(' in U(n.test) and any(isinstance(b, ast.Raise) for b in ast.walk(n))]
+    rr.ob('duplicate sources or destinations in one spec are refused', bool(uniq), mod, uniq[0] if uniq else pt, key='mapping-unique')
